@@ -14,6 +14,10 @@ Verdict(r) ==
         last == IF Len(r.order) = 0 THEN 0 ELSE r.order[Len(r.order)]
         WillFail(i) == Fails(f(i).class) \/ (f(i).class = "readonly" /\ r.mode = "in_place")
         rejected == ArgsRejected(r.shape, r.mode)
+        \* two ways to start the tool: `python -m python_minifier` (exit) and the pyminify console script, sys.exit(main()) (exit2)
+        exit2 == IF "exit2" \in DOMAIN r THEN r.exit2 ELSE r.exit
+        ok0 == r.exit = 0 /\ exit2 = 0
+        any0 == r.exit = 0 \/ exit2 = 0
         wrote == \/ \E i \in F : f(i).post # "pre" \/ f(i).opened_w
                  \/ r.outw.what # "none" \/ r.sout.what # "none"
         Beneficial(i) == r.force \/ f(i).apilen <= f(i).readlen
@@ -24,17 +28,18 @@ Verdict(r) ==
                       /\ (it.what = "pre" => ~Beneficial(it.file) \/ f(it.file).api_is_pre)
                       /\ NeverLargerOK(f(it.file).readlen, it.len, r.force)
     IN
-    IF rejected THEN (IF r.exit = 0 THEN "c13:invalid-arguments-accepted"
+    IF rejected THEN (IF any0 THEN "c13:invalid-arguments-accepted"
                       ELSE IF wrote THEN "c13:rejected-after-writing" ELSE "ok")
     ELSE IF \E i \in F : ~IsTarget(f(i).reach) /\ (f(i).opened_w \/ f(i).post # "pre") THEN "c15:non-target-written"
     ELSE IF \E i \in F : ~IsTarget(f(i).reach) /\ f(i).opened_r /\ f(i).reach # "named" THEN "c15:non-target-read"
     ELSE IF \E i \in F : f(i).post = "other" THEN "c15:file-holds-neither-original-nor-minified"
     ELSE IF \E i \in F : ~PostAllowed(f(i).reach, f(i).class, f(i).post, r.force) /\ ~f(i).api_is_pre THEN "c15:post-state-not-allowed"
     ELSE IF \E i \in Tg : f(i).post = "min" /\ ~Beneficial(i) /\ ~f(i).api_is_pre THEN "c14:file-grew-in-place"
-    ELSE IF (\E i \in visited : WillFail(i)) /\ r.exit = 0 THEN "c15:failure-not-reported"
+    \* a run that reports success has no failing target: it either reached it or stopped earlier at another one
+    ELSE IF (\E i \in Tg : WillFail(i)) /\ any0 THEN "c15:failure-not-reported"
     ELSE IF (\E i \in visited : WillFail(i)) /\ ~WillFail(last) THEN "c15:continued-after-failure"
     ELSE IF (\E i \in visited : WillFail(i)) /\ (\E j \in Tg \ visited : f(j).post # "pre" \/ f(j).opened_w) THEN "c15:unvisited-file-touched"
-    ELSE IF (\A i \in Tg : ~WillFail(i)) /\ r.exit # 0 THEN "c13:valid-run-failed"
+    ELSE IF (\A i \in Tg : ~WillFail(i)) /\ ~ok0 THEN "c13:valid-run-failed"
     ELSE IF (\A i \in Tg : ~WillFail(i)) /\ visited # Tg THEN "c15:targets-not-all-visited"
     ELSE IF Len(r.order) # Cardinality(visited) THEN "c15:file-read-twice"
     \* exactness (C13 subject to the size rule) for the files of a successful run
